@@ -70,6 +70,12 @@ CHECKS = {
    note="Trusted: exactlp. Models whose bounds include zero; calls where a requested range is unbounded are domain-skipped; default thresholds.",
    technique="runtime oracle monitor (exact FVA without objective)",
    ref="DESIGN.md §4 C19"),
+ "C11": dict(
+   level="exploration",
+   text="Round-trip monitor: generated models with every attribute class (awkward ids, bounds beyond the configured defaults / infinite / fixed, min and weighted objectives, nested rules over awkward gene ids, names, formulas, charges incl. 0, notes, annotations, subsystems, compartments) go through json/yaml (string, path, handle), dict and pickle (3 protocols), sort on/off, under four Configuration().bounds settings; the loaded model's description must equal the original's exactly (floats bit-identical, rules by truth table), the raw GLPK problems must agree by name, loading must not raise, and a second round trip must change nothing.",
+   note="Trusted: ioequiv.describe/diff (150 lines), raw GLPK read-back. Groups compared for pickle only.",
+   technique="runtime round-trip monitor with whole-model description equality",
+   ref="DESIGN.md §4 C11"),
  "C15": dict(
    level="fault_enumeration",
    text="Reference-model monitor in lock-step with the real DictList: bounded-exhaustive operation sequences (every index in [-n-2,n+1], every slice, every failing argument position) plus seeded random long sequences; coherence, list-semantics equality and unchanged-on-raise judged after every step. Exhaustive within the stated bounds, sampled beyond.",
